@@ -57,6 +57,8 @@ type Model struct {
 	effects map[*ssa.Function]*Effects
 	repo    string
 	srcHash string
+	noElemPtrs bool     // no pointer into slice/array element storage ever escapes (checked over all analysed functions)
+	elemPtrSites []string
 }
 
 func loadModel(repo string) (*Model, error) {
@@ -213,7 +215,67 @@ func loadModel(repo string) (*Model, error) {
 		}
 	}
 	sort.Strings(m.ifaceStructs)
+	m.checkElemPointers()
 	return m, nil
+}
+
+// checkElemPointers: structural check that no pointer into the element storage of a slice or array
+// (&s[i], &s[i].f, ...) is ever used as a value (stored, passed, returned, boxed): such pointers are
+// only dereferenced or compared on the spot.  When it holds, every pointer that is stored in the heap,
+// received as a parameter or returned by a call points to (a field of) an allocated object or global,
+// never into a backing array -- a separation fact the encoder then assumes for such pointers.
+func (m *Model) checkElemPointers() {
+	m.noElemPtrs = true
+	var ok func(v ssa.Value) bool
+	ok = func(v ssa.Value) bool {
+		refs := v.Referrers()
+		if refs == nil {
+			return true
+		}
+		for _, r := range *refs {
+			switch u := r.(type) {
+			case *ssa.UnOp, *ssa.DebugRef:
+			case *ssa.Store:
+				if u.Val == v {
+					return false
+				}
+			case *ssa.FieldAddr:
+				if !ok(u) {
+					return false
+				}
+			case *ssa.IndexAddr:
+				if !ok(u) {
+					return false
+				}
+			case *ssa.BinOp:
+				if u.Op != token.EQL && u.Op != token.NEQ {
+					return false
+				}
+			default:
+				return false
+			}
+		}
+		return true
+	}
+	for f := range m.fnName {
+		for _, b := range f.Blocks {
+			for _, ins := range b.Instrs {
+				ia, isIA := ins.(*ssa.IndexAddr)
+				if !isIA {
+					continue
+				}
+				// element 0 of a compiler-made varargs array is written, then the array is sliced: fine
+				if al, isAl := ia.X.(*ssa.Alloc); isAl && al.Comment == "varargs" {
+					continue
+				}
+				if !ok(ia) {
+					m.noElemPtrs = false
+					m.elemPtrSites = append(m.elemPtrSites, m.fset.Position(ia.Pos()).String())
+				}
+			}
+		}
+	}
+	sort.Strings(m.elemPtrSites)
 }
 
 func (m *Model) classifyGlobals() {
@@ -508,6 +570,12 @@ func (m *Model) prelude() string {
 (assert (forall ((p Addr) (i Int)) (! (= (rootid (Elem p i)) (rootid p)) :pattern ((Elem p i)))))
 (assert (forall ((n Int)) (! (= (rootid (Glob n)) (- 0 1)) :pattern ((Glob n)))))
 (assert (= (rootid Nil) (- 0 1)))
+(declare-fun inelem (Addr) Bool)
+(assert (forall ((p Addr) (i Int)) (! (inelem (Elem p i)) :pattern ((Elem p i)))))
+(assert (forall ((p Addr) (i Int)) (! (= (inelem (Fld p i)) (inelem p)) :pattern ((Fld p i)))))
+(assert (forall ((n Int)) (! (not (inelem (Base n))) :pattern ((Base n)))))
+(assert (forall ((n Int)) (! (not (inelem (Glob n))) :pattern ((Glob n)))))
+(assert (not (inelem Nil)))
 (assert (= (slen sempty) 0))
 (assert (forall ((s Str)) (! (>= (slen s) 0) :pattern ((slen s)))))
 (assert (forall ((s Str) (i Int)) (! (and (<= 0 (sat s i)) (< (sat s i) 256)) :pattern ((sat s i)))))
